@@ -3,6 +3,7 @@ package gohlslib
 import (
 	"bytes"
 	"fmt"
+	"sync"
 	"time"
 
 	"github.com/bluenviron/gohlslib/v2/pkg/codecs"
@@ -87,12 +88,22 @@ type muxerSegmenter struct {
 	variant            MuxerVariant
 	segmentMinDuration time.Duration
 	partMinDuration    time.Duration
+	mutex              *sync.Mutex
 	parent             muxerSegmenterParent
 
 	pendingParamsChange            bool
 	fmp4SampleDurations            map[time.Duration]struct{} // low-latency only
 	fmp4AdjustedPartDuration       time.Duration              // low-latency only
 	fmp4FreezeAdjustedPartDuration bool                       // low-latency only
+}
+
+// updateParams updates codec parameters, that are
+// read by HTTP handlers while holding the muxer mutex.
+func (s *muxerSegmenter) updateParams(cb func()) {
+	s.pendingParamsChange = true
+	s.mutex.Lock()
+	cb()
+	s.mutex.Unlock()
 }
 
 func (s *muxerSegmenter) initialize() {
@@ -121,8 +132,9 @@ func (s *muxerSegmenter) writeAV1(
 			randomAccess = true
 
 			if !bytes.Equal(codec.SequenceHeader, obu) {
-				s.pendingParamsChange = true
-				codec.SequenceHeader = obu
+				s.updateParams(func() {
+					codec.SequenceHeader = obu
+				})
 			}
 		}
 	}
@@ -177,28 +189,34 @@ func (s *muxerSegmenter) writeVP9(
 		randomAccess = true
 
 		if v := h.Width(); v != codec.Width {
-			s.pendingParamsChange = true
-			codec.Width = v
+			s.updateParams(func() {
+				codec.Width = v
+			})
 		}
 		if v := h.Height(); v != codec.Height {
-			s.pendingParamsChange = true
-			codec.Height = v
+			s.updateParams(func() {
+				codec.Height = v
+			})
 		}
 		if h.Profile != codec.Profile {
-			s.pendingParamsChange = true
-			codec.Profile = h.Profile
+			s.updateParams(func() {
+				codec.Profile = h.Profile
+			})
 		}
 		if h.ColorConfig.BitDepth != codec.BitDepth {
-			s.pendingParamsChange = true
-			codec.BitDepth = h.ColorConfig.BitDepth
+			s.updateParams(func() {
+				codec.BitDepth = h.ColorConfig.BitDepth
+			})
 		}
 		if v := h.ChromaSubsampling(); v != codec.ChromaSubsampling {
-			s.pendingParamsChange = true
-			codec.ChromaSubsampling = v
+			s.updateParams(func() {
+				codec.ChromaSubsampling = v
+			})
 		}
 		if h.ColorConfig.ColorRange != codec.ColorRange {
-			s.pendingParamsChange = true
-			codec.ColorRange = h.ColorConfig.ColorRange
+			s.updateParams(func() {
+				codec.ColorRange = h.ColorConfig.ColorRange
+			})
 		}
 	}
 
@@ -248,20 +266,23 @@ func (s *muxerSegmenter) writeH265(
 
 		case h265.NALUType_VPS_NUT:
 			if !bytes.Equal(codec.VPS, nalu) {
-				s.pendingParamsChange = true
-				codec.VPS = nalu
+				s.updateParams(func() {
+					codec.VPS = nalu
+				})
 			}
 
 		case h265.NALUType_SPS_NUT:
 			if !bytes.Equal(codec.SPS, nalu) {
-				s.pendingParamsChange = true
-				codec.SPS = nalu
+				s.updateParams(func() {
+					codec.SPS = nalu
+				})
 			}
 
 		case h265.NALUType_PPS_NUT:
 			if !bytes.Equal(codec.PPS, nalu) {
-				s.pendingParamsChange = true
-				codec.PPS = nalu
+				s.updateParams(func() {
+					codec.PPS = nalu
+				})
 			}
 		}
 	}
@@ -329,14 +350,16 @@ func (s *muxerSegmenter) writeH264(
 
 		case h264.NALUTypeSPS:
 			if !bytes.Equal(codec.SPS, nalu) {
-				s.pendingParamsChange = true
-				codec.SPS = nalu
+				s.updateParams(func() {
+					codec.SPS = nalu
+				})
 			}
 
 		case h264.NALUTypePPS:
 			if !bytes.Equal(codec.PPS, nalu) {
-				s.pendingParamsChange = true
-				codec.PPS = nalu
+				s.updateParams(func() {
+					codec.PPS = nalu
+				})
 			}
 		}
 	}
